@@ -6,5 +6,6 @@ CONSTANTS
   Vias <- ViasAll
   MaxInject = 1
   Spoof = FALSE
-CONSTRAINTS GenStop
+  RestoreAtTop = TRUE
+CONSTRAINTS GenDeep GenStop
 INVARIANTS Emit
